@@ -9,6 +9,8 @@
 From Coq Require Import NArith List Bool String.
 From BM Require Import Base.Outcome Base.Prims Base.Layout Proofs.FeatureAgree.
 From BM.Gen Require Internal Root Tables.
+From BM Require Import Base.TyExpr Model.LangOracle Model.TraitSolver Proofs.ImplSound.
+From BM Require Properties.C04.
 Open Scope N_scope.
 
 Theorem C20_alignment_test_agrees : forall E1 E2 p a, pow2 a -> Internal.is_aligned_to E1 p a = Internal.is_aligned_to E2 p a.
@@ -44,6 +46,20 @@ Theorem C20_impls_only_grow :
   table_grows Tables.rules_aat Tables.rules_all = true /\ table_grows Tables.rules_none Tables.rules_all = true.
 Proof. exact (conj tables_grow_none_alloc (conj tables_grow_alloc_aat (conj tables_grow_aat_all tables_grow_none_all))). Qed.
 
+(* "it only adds sound ones": whatever marker follows from the impl rows of any feature configuration — the rows
+   a feature adds included — is one whose contract the language guarantees for the type (the C04 theorems,
+   which are stated per configuration over the regenerated tables) *)
+Theorem C20_impls_sound_in_every_configuration : forall m t,
+  (derives (marker_rules Tables.rules_none) m t -> contractb m (ground_facts t) = true) /\
+  (derives (marker_rules Tables.rules_alloc) m t -> contractb m (ground_facts t) = true) /\
+  (derives (marker_rules Tables.rules_aat) m t -> contractb m (ground_facts t) = true) /\
+  (derives (marker_rules Tables.rules_all) m t -> contractb m (ground_facts t) = true).
+Proof.
+  intros m t.
+  exact (conj (C04.C04_sound_no_features m t) (conj (C04.C04_sound_alloc m t)
+        (conj (C04.C04_sound_alloc_align_track m t) (C04.C04_sound_all_features m t)))).
+Qed.
+
 Print Assumptions C20_alignment_test_agrees.
 Print Assumptions C20_try_cast_slice.
 Print Assumptions C20_try_cast_slice_mut.
@@ -58,3 +74,4 @@ Print Assumptions C20_cast_mut.
 Print Assumptions C20_bytes_of.
 Print Assumptions C20_try_pod_read_unaligned.
 Print Assumptions C20_impls_only_grow.
+Print Assumptions C20_impls_sound_in_every_configuration.
